@@ -140,6 +140,7 @@ func runC11(c *Check) {
 	c.pruneShape(prune, pruneFrom)
 	c.simplifiedNameIsTrimmed()
 	c.pruneIsStateless()
+	c.matchIndicesApplyToMatchedString()
 }
 
 // scanDirections (R5): Prune looks for the first match scanning from the root, so its
